@@ -102,6 +102,16 @@ def generate(tier, rng):
         yield _case('req_from_json', j=enc(_obj(jsonrpc=jr, id=id, method=m, params=p)))
     for x in (1, 'z'):
         yield _case('req_from_json', j=enc({'jsonrpc': '2.0', 'method': 'm', 'id': 1, 'extra': x}))
+    # payloads nested far deeper than the text codec itself minds: deserialisation looks at the members of a message, never into
+    # a payload, so the depth of params / result / error data cannot matter (the model is handed a shallow stand-in)
+    for depth in (700,):
+        for slot in ('params', 'params-obj'):
+            yield dict(_case('req_from_json', j=enc({'jsonrpc': '2.0', 'method': 'm', 'id': 1, 'params': [[]]})), deep=depth, slot=slot)
+            yield dict(_case('breq_from_json', j=enc([{'jsonrpc': '2.0', 'method': 'm', 'id': 1, 'params': [[]]}, {'jsonrpc': '2.0', 'method': 'n'}])),
+                       deep=depth, slot=slot)
+        yield dict(_case('resp_from_json', j=enc({'jsonrpc': '2.0', 'id': 1, 'result': [[]]}), reg=REG, cls=_cls_json(E.JsonRpcError)), deep=depth, slot='result')
+        yield dict(_case('resp_from_json', j=enc({'jsonrpc': '2.0', 'id': 1, 'error': {'code': 1, 'message': 'm', 'data': [[]]}}), reg=REG,
+                         cls=_cls_json(E.JsonRpcError)), deep=depth, slot='data')
     for v in NON_OBJECTS:
         yield _case('req_from_json', j=enc(v))
         yield _case('err_from_json', j=enc(v), reg=REG, cls=_cls_json(E.JsonRpcError))
@@ -424,9 +434,36 @@ def _disturb(m):
         _disturb_value(m.data)
 
 
+def _nested(depth):
+    v = []
+    for _ in range(depth):
+        v = [v]
+    return v
+
+
+def _deepen(c):
+    doc = dec(c['j'])
+    deep = _nested(c['deep'])
+    target = doc[0] if isinstance(doc, list) else doc
+    if c['slot'] == 'params':
+        target['params'] = [deep]
+    elif c['slot'] == 'params-obj':
+        target['params'] = {'a': deep}
+    elif c['slot'] == 'result':
+        target['result'] = deep
+    else:
+        target['error']['data'] = deep
+    return doc
+
+
 def run_impl(c):
     op = c['op']
     cls = _cls_of(c['cls']) if c.get('cls') else E.JsonRpcError
+    if c.get('deep'):
+        doc = _deepen(c)
+        f = {'req_from_json': pjrpc.Request.from_json, 'breq_from_json': pjrpc.BatchRequest.from_json,
+             'resp_from_json': lambda j: pjrpc.Response.from_json(j, error_cls=cls)}[op]
+        return _py(lambda: f(doc), lambda m: '<deep>')
     if op == 'req_from_json':
         return _py(lambda: pjrpc.Request.from_json(dec(c['j'])), enc_request)
     if op == 'resp_from_json':
@@ -534,7 +571,7 @@ def project(prop, c, out):
         # strict and total: accepted or not, and what is raised
         return {'raised': out['raised']} if 'raised' in out else {'ok': True}
     if prop == 'C05':
-        if op not in C05_OPS:
+        if op not in C05_OPS or c.get('deep'):
             return None
         if op.endswith('_hist'):
             # a batch serialised, grown and serialised again: the wire form follows the elements (the model's toJson is a
